@@ -541,6 +541,10 @@ pub fn run(_scenario: u32, choices: &[u8], _strict: bool) -> Outcome {
   };
 
   let accepted = |r: &Result<(ValidationOutcome, Option<HandshakeMessageToken>), crate::security::SecurityError>| matches!(r, Ok((ValidationOutcome::Ok | ValidationOutcome::OkFinalMessage, _)));
+  let repeats = 1 + (usize::from(seeds.0) + usize::from(seeds.1)) % 5;
+  if repeats >= 3 {
+    o.label("bad-message-delivered-3-to-5-times");
+  }
 
   // ---- stage Request
   if stage == Stage::Request {
@@ -603,7 +607,15 @@ pub fn run(_scenario: u32, choices: &[u8], _strict: bool) -> Outcome {
   let mut fin_from_bad_reply: Option<HandshakeMessageToken> = None;
   if stage == Stage::Reply {
     let bad = make_bad(&mut c, &reply, stage, &mut what);
-    let res = i.auth.process_handshake(bad, i.hs);
+    // the same bad message several times (an attacker is not limited to one datagram); the number
+    // is a function of the seeds, not a new draw
+    let mut res = i.auth.process_handshake(bad.clone(), i.hs);
+    for _ in 1..repeats {
+      if accepted(&res) {
+        break;
+      }
+      res = i.auth.process_handshake(bad.clone(), i.hs);
+    }
     o.sample = format!("seeds={seeds:?} swap={swap_roles} stage=Reply fault={what} -> {}", match &res {
       Ok((oc, _)) => format!("{oc:?}"),
       Err(_) => "rejected".into(),
@@ -649,7 +661,13 @@ pub fn run(_scenario: u32, choices: &[u8], _strict: bool) -> Outcome {
   // ---- stage Final
   if stage == Stage::Final {
     let bad = make_bad(&mut c, &fin, stage, &mut what);
-    let res = r.auth.process_handshake(bad, r.hs);
+    let mut res = r.auth.process_handshake(bad.clone(), r.hs);
+    for _ in 1..repeats {
+      if accepted(&res) {
+        break;
+      }
+      res = r.auth.process_handshake(bad.clone(), r.hs);
+    }
     o.sample = format!("seeds={seeds:?} swap={swap_roles} stage=Final fault={what} -> {}", match &res {
       Ok((oc, _)) => format!("{oc:?}"),
       Err(_) => "rejected".into(),
